@@ -566,6 +566,38 @@ pub fn range_overlap_family() -> Vec<Spec> {
     out
 }
 
+/// A character and a range leading to the same state while a range of another rule (with another
+/// target) covers the character — in both rule orders, as two rules and as one alternation, and
+/// behind 0..3 padding rules that shift the state numbering (the order of range arms in generated
+/// code follows a hash map keyed by state index).  Alphabet: `FOLD_ALPHABET`.
+pub const FOLD_ALPHABET: [char; 8] = ['a', 'b', 'c', 'm', 'x', 'y', '1', '2'];
+pub fn fold_family() -> Vec<Spec> {
+    let layouts: Vec<(Re, Re)> = vec![
+        (set(&[('b', 'b'), ('m', 'n'), ('x', 'z')]), set(&[('a', 'c'), ('m', 'n'), ('y', 'y')])),
+        (set(&[('c', 'c'), ('a', 'b')]), set(&[('a', 'd')])),
+        (set(&[('m', 'm'), ('x', 'y'), ('a', 'b')]), set(&[('a', 'y')])),
+    ];
+    let pads = [st("1m"), st("2x1"), cat(ch('1'), plus(ch('2')))];
+    let mut out = vec![];
+    for (s1, s2) in &layouts {
+        for npad in 0..=pads.len() {
+            for order in 0..2 {
+                let r1 = cat(s1.clone(), ch('1'));
+                let r2 = cat(s2.clone(), ch('2'));
+                let (first, second) = if order == 0 { (r1, r2) } else { (r2, r1) };
+                let mut two: Vec<Rule> = pads[..npad].iter().cloned().map(ret).collect();
+                two.push(ret(first.clone()));
+                two.push(ret(second.clone()));
+                out.push(Spec::single(two, "fold"));
+                let mut one: Vec<Rule> = pads[..npad].iter().cloned().map(ret).collect();
+                one.push(ret(alt(first, second)));
+                out.push(Spec::single(one, "fold"));
+            }
+        }
+    }
+    out
+}
+
 /// Delimited lexemes: a `_` (or `_ # c`) loop between delimiters — the `_` transition leads to a
 /// state with several predecessors (never inlined).
 pub fn delimited_family() -> Vec<Spec> {
@@ -633,6 +665,9 @@ pub fn shape_pool(q: bool) -> Vec<Spec> {
     // `$` rules with a right context (which can never hold after the end of input)
     v.push(Spec::single(vec![Rule { re: alt(ch('c'), Re::Eoi), ctx: Some(ch('a')), kind: Kind::Act(D_RETURN) }, ret(ch('a')), ret(ch('b'))], "eoi_ctx"));
     v.push(Spec::single(vec![Rule { re: Re::Eoi, ctx: Some(ch('a')), kind: Kind::Act(D_RETURN) }, ret(plus(ch('a')))], "eoi_ctx"));
+    // a lexeme whose only rule has a failing context, right before the end of input, with a `$` rule waiting
+    v.push(Spec::single(vec![Rule { re: ch('a'), ctx: Some(ch('b')), kind: Kind::Act(D_RETURN) }, ret(Re::Eoi), ret(ch('c'))], "eoi_ctx"));
+    v.push(Spec::single(vec![Rule { re: st("ab"), ctx: Some(ch('b')), kind: Kind::Act(D_RETURN) }, ret(cat(ch('x'), Re::Eoi)), ret(Re::Eoi), ret(ch('c'))], "eoi_ctx"));
     // sizes: a 30-rule definition, deep nesting, many alternatives
     v.extend(stress_family().into_iter().filter(|s| s.family == "thirty"));
     v.push(Spec::single(vec![ret(plus(cat(star(alt(ch('a'), ch('b'))), ch('c')))), ret(ch('a')), ret(ch('x'))], "nested"));
@@ -676,7 +711,10 @@ pub fn pool_groups(prop: &'static str, proj: Proj, q: bool, max_dev: usize) -> V
         .step_by(if q { 3 } else { 1 })
         .map(|s| Spec { sets: s.sets.iter().map(|set| RuleSet { lets: vec![], rules: set.rules.iter().map(|r| Rule { re: bind(&r.re, &BETA2), ctx: r.ctx.as_ref().map(|c| bind(c, &BETA2)), kind: r.kind }).collect() }).collect(), family: "pool_bound", ..s.clone() })
         .collect();
-    vec![Group { plan: p1, specs: shape_pool(q) }, Group { plan: p2, specs: tables }, Group { plan: p3, specs: bound }]
+    let mut p4 = plan(prop, proj, 3, 0);
+    p4.alphabet = FOLD_ALPHABET.to_vec();
+    let fold: Vec<Spec> = fold_family().into_iter().step_by(if q { 3 } else { 1 }).collect();
+    vec![Group { plan: p1, specs: shape_pool(q) }, Group { plan: p2, specs: tables }, Group { plan: p3, specs: bound }, Group { plan: p4, specs: fold }]
 }
 
 fn with<F: FnOnce(&mut Plan)>(mut p: Plan, f: F) -> Plan {
@@ -694,6 +732,8 @@ pub fn groups(prop: &str, tier: &str) -> Vec<Group> {
             g.push(Group { plan: plan("C01", Proj::Tokens, if q { 4 } else { 5 }, 1), specs: groups_core("C03", tier).remove(0).specs.into_iter().step_by(if q { 3 } else { 1 }).collect() });
             Some(("C01", Proj::Tokens, 0))
         }
+        "C02" => Some(("C02", Proj::Tokens, 0)),
+        "C04" => Some(("C04", Proj::Full, 0)),
         "C05" => Some(("C05", Proj::Full, 1)),
         "C06" => Some(("C06", Proj::Locs, 0)),
         "C07" => {
@@ -770,7 +810,8 @@ fn groups_core(prop: &str, tier: &str) -> Vec<Group> {
             };
             let builtin_rules = builtin_rules_family();
             let pb = with(plan("C02", Proj::Tokens, if q { 4 } else { 5 }, 0), |p| p.alphabet = TABLE_ALPHABET.to_vec());
-            vec![Group { plan: plan("C02", Proj::Tokens, 6, 0), specs }, bound(&BETA1, if q { 40 } else { 300 }), bound(&BETA2, if q { 40 } else { 300 }), Group { plan: pb, specs: builtin_rules }]
+            let pf = with(plan("C02", Proj::Tokens, 3, 0), |p| p.alphabet = FOLD_ALPHABET.to_vec());
+            vec![Group { plan: plan("C02", Proj::Tokens, 6, 0), specs }, bound(&BETA1, if q { 40 } else { 300 }), bound(&BETA2, if q { 40 } else { 300 }), Group { plan: pb, specs: builtin_rules }, Group { plan: pf, specs: fold_family() }]
         }
         "C03" => {
             let mut specs = if q { sets_family(6, &[2, 3, 5, 10], true) } else { sets_family(11, &[0, 2, 3, 5, 6, 9, 10], true) };
@@ -809,7 +850,31 @@ fn groups_core(prop: &str, tier: &str) -> Vec<Group> {
                 })
                 .collect();
             specs.extend(fallible);
-            vec![Group { plan: plan("C03", Proj::RuleIds, 5, if q { 2 } else { 3 }), specs }]
+            // a chain of more than 32 single-predecessor states (a long keyword) in Init, in the middle
+            // and in the last rule set, the neighbouring rule sets ready to continue the chain's text
+            let kw = |to: usize| rule(st(LONG_KEYWORD), Kind::Act(d_switch_return(to)));
+            let cont = |to: usize| vec![rule(ch('a'), Kind::Act(d_switch_return(to))), ret(st("bc")), ret(ch('b')), ret(ch('c'))];
+            let mut long = vec![
+                Spec::multi(vec![vec![kw(1), rule(ch('c'), Kind::Act(d_switch_return(1))), ret(ch('x'))], cont(0)], "sets_long"),
+                Spec::multi(vec![vec![rule(ch('c'), Kind::Act(d_switch_return(1))), ret(ch('a'))], vec![kw(2), rule(ch('x'), Kind::Act(d_switch_return(0)))], cont(0)], "sets_long"),
+                Spec::multi(vec![cont(1), vec![kw(0), ret(ch('x'))]], "sets_long"),
+                Spec::multi(vec![vec![kw(0), ret(plus(set(&[('a', 'c')])))], cont(0)], "sets_long"),
+            ];
+            for s in long.iter_mut() {
+                s.named = true;
+            }
+            let mut pl = plan("C03", Proj::RuleIds, 3, 1);
+            pl.extra_inputs = vec![
+                LONG_KEYWORD.into(),
+                format!("{}abc", LONG_KEYWORD),
+                format!("c{}abc", LONG_KEYWORD),
+                format!("a{}x", LONG_KEYWORD),
+                format!("{}bc", &LONG_KEYWORD[..33]),
+                format!("c{}bc", &LONG_KEYWORD[..33]),
+                format!("{}a", &LONG_KEYWORD[..36]),
+                format!("c{}cb", &LONG_KEYWORD[..40]),
+            ];
+            vec![Group { plan: plan("C03", Proj::RuleIds, 5, if q { 2 } else { 3 }), specs }, Group { plan: pl, specs: long }]
         }
         "C04" => {
             let mut specs = ctx_family(!q);
@@ -856,8 +921,14 @@ fn groups_core(prop: &str, tier: &str) -> Vec<Group> {
             specs.extend(eoi_family().into_iter().filter(|s| s.sets.len() > 1));
             // the quoted case: Init{'a','s'->switch R} R{'b'} on "sxaab"
             specs.push(Spec::multi(vec![vec![ret(ch('a')), rule(ch('s'), Kind::Act(d_switch(1)))], vec![ret(ch('b'))]], "recovery_quoted"));
+            // a context-only lexeme failing in a second rule set (also right before the end of input, with `$` in Init)
+            let cx = |re: Re, c: Re| Rule { re, ctx: Some(c), kind: Kind::Act(D_RETURN) };
+            specs.push(Spec::multi(vec![vec![rule(ch('c'), Kind::Act(d_switch_return(1))), ret(Re::Eoi), ret(ch('b'))], vec![cx(ch('a'), ch('b')), rule(ch('c'), Kind::Act(d_switch_return(0)))]], "recovery_ctx"));
+            specs.push(Spec::multi(vec![vec![cx(ch('a'), ch('b')), ret(ch('b')), rule(ch('c'), Kind::Act(d_switch_return(1)))], vec![rule(ch('c'), Kind::Act(d_switch_return(0))), cx(ch('a'), ch('a')), ret(ch('b'))]], "recovery_ctx"));
+            // a long chain of single-predecessor states in Init / in a later rule set
+            specs.push(Spec::multi(vec![vec![ret(st(LONG_KEYWORD)), rule(ch('c'), Kind::Act(d_switch_return(1))), ret(ch('x'))], vec![rule(ch('a'), Kind::Act(d_switch_return(0))), ret(st("bc")), ret(ch('b'))]], "sets_long"));
             let mut p = plan("C08", Proj::Recovery, 5, if q { 1 } else { 2 });
-            p.extra_inputs = vec!["sxaab".into(), "sxxaab".into(), "sbxab".into()];
+            p.extra_inputs = vec!["sxaab".into(), "sxxaab".into(), "sbxab".into(), LONG_KEYWORD.into(), format!("{}bc", &LONG_KEYWORD[..33]), format!("c{}a", &LONG_KEYWORD[..36])];
             vec![Group { plan: p, specs }]
         }
         "C09" => {
@@ -1318,6 +1389,7 @@ pub fn p_family(name: &str) -> Option<PFamily> {
         "stale" => from_vec(stale_family()),
         "ctx_shapes" => from_vec(ctx_family(true)),
         "range_overlap" => from_vec(range_overlap_family()),
+        "fold" => from_vec(fold_family()),
         "diamond" => from_vec(diamond_family()),
         "delimited" => from_vec(delimited_family()),
         // `#` and `|` between classes with several pieces, used inside rules
